@@ -185,6 +185,13 @@ func init() {
 			q.tag("shadow")
 			table = append(table, q)
 		}
+		// closures over methods of a receiver variable that is re-assigned / mutated after a yield ("closures created before a
+		// Yield observe updates made after it"): the in-generator rows of the method-value table
+		for i, sh := range methodValueInGenerators() {
+			q := mkShapeProgram("M"+itoa(100+i), sh)
+			q.tag("closure-before-yield")
+			table = append(table, q)
+		}
 		for i, sh := range optimiserBait {
 			if strings.Contains(sh.name, "shadowing") {
 				q := mkShapeProgram("O"+itoa(100+i), sh)
